@@ -174,6 +174,43 @@ pub fn check_history(h: &History, r: &mut CaseReport) {
         ));
         return;
     }
+    // An absolute check next to the differential one: diagnostics are published exactly when the
+    // final program is at fault (a differential oracle alone cannot see a server that never
+    // publishes: the fresh server would be just as silent).
+    {
+        let mut files = h.files.clone();
+        for d in &deleted {
+            files.remove(d);
+        }
+        for (d, t) in &open {
+            files.insert(d.clone(), t.clone());
+        }
+        let sources = crate::oal::Sources { main: h.main.clone(), files };
+        let faulty = crate::engine::catch(|| match crate::oal::load_lenient(&sources) {
+            Err(_) => true,
+            Ok(mods) => {
+                let lexical = mods.locators().any(|l| {
+                    let name = crate::oal::name_of(l);
+                    sources.files.get(&name).map_or(false, |t| !oal_syntax::parse::<_, oal_compiler::tree::Core>(l.clone(), t.clone()).1.is_empty())
+                });
+                lexical || oal_compiler::eval::eval(&mods).is_err()
+            }
+        });
+        if let Ok(faulty) = faulty {
+            if faulty == df.is_empty() {
+                r.fail(Failure::new(
+                    "c15:diagnostics-vs-verdict",
+                    format!(
+                        "the final program is {} but a fresh server given the final texts has {} published (and the server after the history {})",
+                        if faulty { "at fault (the in-process pipeline reports an error)" } else { "accepted by the in-process pipeline" },
+                        if df.is_empty() { "no diagnostic".to_owned() } else { format!("{df:?}") },
+                        if dh.is_empty() { "none either".to_owned() } else { "some".to_owned() }
+                    ),
+                ));
+                return;
+            }
+        }
+    }
     // Answers at sampled positions (identifier-looking starts plus a grid).
     let mut asked = 0u64;
     for (doc, disk) in &h.files {
